@@ -119,7 +119,7 @@ def fill(b, t, rnd, out):
     out += bytes(buf)
 
 
-def gen_project(rnd, n_tags=12, programs=1, junk=True, big_tags=None, iid_base=None):
+def gen_project(rnd, n_tags=12, programs=1, junk=True, big_tags=None, iid_base=None, wide=None):
     b = Builder(rnd)
     symbols, mem = [], {}
     # types
@@ -136,6 +136,13 @@ def gen_project(rnd, n_tags=12, programs=1, junk=True, big_tags=None, iid_base=N
     fake1 = b.udt("NotStr1", [("LEN", atomic(0xC4), 0), ("DATA", atomic(0xC3), rnd.choice([4, 16]))])
     fake2 = b.udt("NotStr2", [("LEN", atomic(0xC4), 0), ("DATA", atomic(0xC2), 0)])
     udts = [inner, flat, nine, outer, deep, fake1, fake2]
+    widet = None
+    if wide if wide is not None else rnd.random() < 0.25:
+        # a structure whose definition is larger than a small connection can carry in one reply
+        nm = rnd.choice([30, 60, 130])
+        codes = [0xC1, 0xC2, 0xC3, 0xC4, 0xC1, 0xCA, 0xC1]
+        widet = b.udt("Wide", [("Member_%02d_%s" % (j, "n" * rnd.randint(0, 24)), atomic(codes[(j * 5 + nm) % len(codes)]), 0) for j in range(nm)])
+        udts.append(widet)
     iid = iid_base if iid_base is not None else rnd.choice([1, 200, 250, 65500, 70000])
 
     def add(name, t, dims, scope="", kind="tag", **kw):
@@ -177,11 +184,15 @@ def gen_project(rnd, n_tags=12, programs=1, junk=True, big_tags=None, iid_base=N
             add(nm, rnd.choice([inner, flat, outer]), [rnd.randint(1, 4)])
         else:
             add(nm, rnd.choice(udts + strs), rnd.choice([[], [2]]))
+    if widet is not None:
+        add("WideTag", widet, [])
     for spec in (big_tags or []):
         add(spec["name"], spec["type"] if "type" in spec else atomic(spec["code"]), spec["dims"])
     progs = ["Main", "P2", "Prog_odd"][:programs]
     for p in progs:
         add("Program:" + p, atomic(0), [], kind="program", typeword=0x68)
+    if programs and rnd.random() < 0.3:
+        add("Program:Empty", atomic(0), [], kind="program", typeword=0x68)       # a program without tags or routines
     if junk:
         add("Task:T1", atomic(0), [], kind="task", typeword=0x70)
         add("Map:Local", atomic(0), [], kind="map", typeword=0x69)
